@@ -13,6 +13,8 @@ INVARIANT WhitelistRules
 INVARIANT VisibleMonotoneInE
 INVARIANT ArgsShape
 INVARIANT ToolCarryForward
+INVARIANT LibPathComplete
+INVARIANT VisibleByProfile
 INVARIANT MountsSound
 INVARIANT ModeTable
 INVARIANT DocMatchesCode
